@@ -94,7 +94,6 @@ type upRec struct {
 	timers  int
 	pushed  bool // the driver's record of rtpUpConnection.pushed
 	g       *group.Group
-	cs      []group.Client
 	pub     *publisher
 	created time.Time
 	lenient bool // established in sleep mode: intermediate pushes possible
@@ -120,6 +119,10 @@ type hist struct {
 	collision map[int]bool
 	replaces  map[int]int // object -> the id it replaced
 	hasTracks bool
+	// (client, stream id) pairs for which the history is built to show a known
+	// discrepancy: the monitor records a note instead of a violation
+	knownMiss map[[2]int]string
+	forceWait bool // let the REAL goroutines of pushConn fire (no hook)
 }
 
 func newHist(t *tr.Trace, r *tr.Rand, stream string, n int) *hist {
@@ -128,7 +131,7 @@ func newHist(t *tr.Trace, r *tr.Rand, stream string, n int) *hist {
 		panic(err)
 	}
 	h := &hist{t: t, r: r, w: w, stream: stream, n: n, checked: map[string]int{}, notes: map[string]int{},
-		idOwner: map[int]int{}, collision: map[int]bool{}, replaces: map[int]int{}}
+		idOwner: map[int]int{}, collision: map[int]bool{}, replaces: map[int]int{}, knownMiss: map[[2]int]string{}}
 	var users []sigdrv.User
 	for u := 0; u < 4*n; u++ {
 		var p []string
@@ -402,19 +405,24 @@ func status(c *cli, res sigdrv.Result) string {
 }
 
 // after every operation: collect what was sent, run the per-operation monitors
-func (h *hist) after(actor *cli, kind string, id int, downsBefore [][]int, grpBefore []bool) {
+func (h *hist) after(actor *cli, kind string, id int, downsBefore [][]int, grpBefore []int) {
 	h.drain()
 	h.perOpMonitors(actor, kind, id, downsBefore, grpBefore)
 }
 
-func (h *hist) snapshot() ([][]int, []bool) {
+// snapshot: the down stream ids and the group (-1: none, or dead) of every
+// client before an operation
+func (h *hist) snapshot() ([][]int, []int) {
 	downs := make([][]int, len(h.cs))
-	in := make([]bool, len(h.cs))
+	in := make([]int, len(h.cs))
 	for i, c := range h.cs {
 		for _, id := range c.c.DownIds() {
 			downs[i] = append(downs[i], num(id))
 		}
-		in[i] = c.c.HasGroup() && !c.c.Dead
+		in[i] = -1
+		if c.c.HasGroup() && !c.c.Dead {
+			in[i] = num(c.c.GroupName())
+		}
 	}
 	return downs, in
 }
@@ -503,12 +511,8 @@ func (h *hist) reqstream(c *cli, id int, null bool, req []string) {
 func (h *hist) offerSDP(c *cli, id, label, replace int, sdpKind string, sdp string, pub *publisher) *upRec {
 	prev := c.c.VerifUp(sid(id))
 	var g *group.Group
-	var snap []group.Client
 	if c.c.HasGroup() {
 		g = h.w.Group(c.c.GroupName())
-		if g != nil {
-			snap = g.GetClients(c.c.Client())
-		}
 	}
 	m := sigdrv.M{"type": "offer", "id": sid(id), "sdp": sdp}
 	if label != 0 {
@@ -528,7 +532,7 @@ func (h *hist) offerSDP(c *cli, id, label, replace int, sdpKind string, sdp stri
 	newS := "-"
 	if res.Ran && cur != nil && (prev == nil || !cur.Same(prev)) {
 		rec = &upRec{k: len(h.ups), up: cur, owner: c.h, id: id, label: label, grp: num(c.c.GroupName()),
-			timers: 1, g: g, cs: snap, pub: pub, created: t0}
+			timers: 1, g: g, pub: pub, created: t0}
 		h.ups = append(h.ups, rec)
 		newS = strconv.Itoa(rec.k)
 		if o, ok := h.idOwner[id]; ok {
@@ -657,7 +661,7 @@ func (h *hist) timer(u *upRec) {
 	}
 	u.timers--
 	db, gb := h.snapshot()
-	fired := u.up.Fire(u.g, u.cs)
+	fired := u.up.Fire(u.g)
 	if fired == u.pushed {
 		// the real goroutine of pushConn got there first (the history took
 		// more than 200 ms of wall time): discard and run again
@@ -725,6 +729,12 @@ func (h *hist) quiesce() {
 // hook (one push with all the tracks); otherwise the driver waits for the
 // real goroutines and the next observation does not compare `close`.
 func (h *hist) establish(c *cli, id, label, replace int, kinds []string) *upRec {
+	return h.establishWith(c, id, label, replace, kinds, nil)
+}
+
+// establishWith runs between() right after the offer, before any track can
+// have arrived (checked): what happens inside the push delay of the stream.
+func (h *hist) establishWith(c *cli, id, label, replace int, kinds []string, between func()) *upRec {
 	for _, u := range h.pendingTimers() { // no other timer may be pending while we wait
 		for u.timers > 0 {
 			h.timer(u)
@@ -745,6 +755,12 @@ func (h *hist) establish(c *cli, id, label, replace int, kinds []string) *upRec 
 	if rec == nil {
 		pub.close()
 		return nil
+	}
+	if between != nil {
+		between()
+		if len(rec.up.Kinds()) > 0 {
+			h.tainted = true // a track overtook the scripted operations
+		}
 	}
 	pub.start()
 	deadline := time.Now().Add(6 * time.Second)
@@ -770,7 +786,7 @@ func (h *hist) establish(c *cli, id, label, replace int, kinds []string) *upRec 
 	rec.timers += len(got)
 	rec.pushed = false
 	h.line(strconv.Itoa(len(got)), "track %d %s", rec.k, strings.Join(letters, ","))
-	if time.Since(rec.created) < 140*time.Millisecond {
+	if !h.forceWait && time.Since(rec.created) < 140*time.Millisecond {
 		h.timer(rec) // fires: one push with all the tracks
 		if h.lines[len(h.lines)-1][1] != "1" {
 			h.tainted = true
